@@ -323,6 +323,8 @@ def conclude(ctx, mod, t0, evidence_path, args):
         by_backend["term-simplifier (goal rewritten to true)"] = n_triv
     n_obl = len(valid) + n_triv   # a refuted obligation covered by a listed finding is replaced by its relativised form
     n_dis = len(discharged) + extra_discharged + n_triv
+    if n_obl == 0 and level == "proof":
+        level = "other"      # nothing could be put under contract in this run (checker errors): no proof is claimed for it
     samples = [{"obligation": v.name, "kind": v.kind, "verdict": v.result["verdict"], "backend": v.result["backend"],
                 "seconds": round(v.result["seconds"], 3), "note": v.note, "smt2_bytes": len(v.smt2())} for v in (valid[:4] + refuted[:3])]
     samples += ctx.samples[:6]
